@@ -133,7 +133,7 @@ def flat(seq):
     return [n for lvl in levels(seq) for n in lvl]
 
 
-NUM_RE = re.compile(r'(\$+)(?:@(-?)(\d*))?')
+NUM_RE = re.compile(r'(\$+)(?![{#$])(?:@(-?)(\d*))?')      # a `$`-run that is not the start of a field `${` or of `$#`
 
 
 def number(s, counter):
